@@ -51,6 +51,7 @@ func sameNode(a vfsx.Node, p preObj) bool {
 		return true
 	}
 	ok := a.Perm == p.perm
+	ok = ok && a.Uid == p.uid && a.Gid == p.gid
 	if p.kind != vfsx.KLink {
 		// (ownership and times of symlinks are not compared natively)
 		ok = ok && a.Sec == p.sec
@@ -124,6 +125,10 @@ func HDryRun() {
 	opts := allOpts()
 	opts.DryRun = true
 	f := symEntry("f", 1)
+	if pre.kind == vfsx.KReg && nd_bool() {
+		// the checksum of identical content, computed (so that native replays agree with the model)
+		copy(f.Checksum[:], plainSum(pre.data))
+	}
 	fl := []*File{{Name: ".", Mode: 0o040755, ModTime: time.Unix(0, 0)}, f}
 	// the sender answers a dry-run request with the index only
 	var in []byte
